@@ -1139,6 +1139,7 @@ def must_call_census(ctx, crate, files):
                       where_of(b))
     ctx.floor("functions compared with the must-call table", n, 1)
     loop_must_call_census(ctx, crate, files)
+    co_exec_census(ctx, crate, files)
 
 
 def self_symmetry_sites(crate):
@@ -1327,3 +1328,137 @@ def local_slice(b, op, max_defs=200):
                 if p2 is not None:
                     work.append(p2["l"])
     return out
+
+
+# ---------------------------------------------------------------------------- co-execution census
+def _local_call(crate, b, c):
+    """(name, target body or None) when call site c of b is a call of a named library function (or of a method of one of the
+    library's own traits dispatched on a type parameter), else None"""
+    if b.blocks[c.bb]["cleanup"] or not c.callee:
+        return None
+    if c.callee.target in crate.bodies:
+        t = crate.bodies[c.callee.target]
+        if t.kind == "Closure" or t.auto_derived or not (t.file or "").startswith("src/") or not t.name:
+            return None
+        return t.name, t
+    mods = crate._cache.get("crate_modules")
+    if mods is None:
+        _direct_must_calls(crate, next(iter(crate.fns())))
+        mods = crate._cache.get("crate_modules") or set()
+    tr = c.callee.trait or ""
+    if not tr or tr.split("::")[0] not in mods or tr.startswith("std::") or tr.startswith("core::"):
+        return None
+    return c.callee.name, None
+
+
+def co_exec(crate, b, weighty_only=True, direct_only=False):
+    """{X: {Y}} over the named library functions called directly in b (raw body): every path from the entry of b to a normal
+    return that goes through a call of X also goes through a call of Y — made directly, or inside a direct callee that makes it
+    on all its paths.  (Unordered: Y may come before or after X, so swapping two independent statements changes nothing.)"""
+    rets = b.return_blocks()
+    if not rets:
+        return {}
+    sites = {}
+    provides = {}          # Y -> blocks in which Y is certainly executed
+    ghost = b.ghost_blocks()[0]
+    for c in b.calls:
+        lc = _local_call(crate, b, c)
+        if lc is None or c.bb in ghost:
+            continue
+        nm, t = lc
+        sites.setdefault(nm, []).append((c.bb, t))
+        provides.setdefault(nm, set()).add(c.bb)
+        if t is not None and not direct_only:
+            for y in (must_calls(crate, t, weighty_only=False) or ()):
+                provides.setdefault(y, set()).add(c.bb)
+    out = {}
+    wt = {}
+    def weighty_name(nm):
+        if nm not in wt:
+            ts = [t for t in crate.by_name.get(nm, []) if t.kind != "Closure"]
+            wt[nm] = (not ts) or any(_weighty(t) for t in ts)
+        return wt[nm]
+    for x, xs in sites.items():
+        if weighty_only and not weighty_name(x):
+            continue
+        for y, yb in provides.items():
+            if y == x or y == b.name or (weighty_only and not weighty_name(y)):
+                continue
+            if all(bbx in yb or b.must_pass([0], [bbx], yb) or b.must_pass(b.after(bbx), rets, yb) for bbx, _ in xs):
+                out.setdefault(x, set()).add(y)
+    return out
+
+
+def co_exec_table(crate):
+    per = {}
+    for b in crate.fns():
+        if b.kind == "Closure" or b.auto_derived or not (b.file or "").startswith("src/") or not b.name or (b.file or "").endswith("tst.rs") or (b.file or "").endswith("/check.rs"):
+            continue
+        per.setdefault(_mc_key(b), []).append(b)
+    tab = {}
+    for k, bs in per.items():
+        if len(bs) != 1:
+            continue
+        b = bs[0]
+        always = must_calls(crate, b, weighty_only=False) or set()
+        def unique(nm):
+            # (a name shared by several functions of the library — new, insert, compose, check .. — says too little)
+            return len([t for t in crate.by_name.get(nm, []) if t.kind != "Closure" and (t.file or "").startswith("src/")]) <= 1
+        for x, ys in co_exec(crate, b, direct_only=True).items():
+            ys = sorted(y for y in ys if y not in always and unique(y))       # (what runs on every path anyway is the must-call census' business)
+            # X is a step that changes something (a callee with a &mut parameter): a read-only call may be hoisted out of a loop
+            # or shared between branches by a refactoring, which changes what accompanies it
+            xt = [t for t in crate.by_name.get(x, []) if t.kind != "Closure"]
+            if not (len(xt) == 1 and any(xt[0].local_ty(l).startswith("&mut") for l in range(1, xt[0].argc + 1))):
+                continue
+            if ys and x not in always and unique(x):
+                tab["%s@%s" % (k, x)] = ys
+    return tab
+
+
+def co_exec_census(ctx, crate, files):
+    """CC: wherever a function of `files` calls X, it still also calls — on every path through that call — each function Y that
+    accompanied X on every such path in the reviewed tree (mustcall.json, tables `co:<cfg>`): the follow-up work of a step
+    (allocate -> hand to the congruence step -> rebuild; take out -> put back) was not put behind a new condition or dropped."""
+    global _MUSTCALL
+    import json as _json, os as _os
+    if _MUSTCALL is None:
+        try:
+            _MUSTCALL = _json.load(open(_os.path.join(_os.path.dirname(_os.path.dirname(_os.path.abspath(__file__))), "mustcall.json")))
+        except Exception:
+            _MUSTCALL = {}
+    ref = _MUSTCALL.get("co:" + (ctx.cur_cfg or "default")) or _MUSTCALL.get("co:default") or {}
+    if not ref:
+        raise AnchorMissing("mustcall.json", "no co-execution table")
+    names_now = {b.name for b in crate.fns() if b.name} | set(getattr(crate, "aliases", {}).values()) | {c.callee.name for b in crate.fns() for c in b.calls if c.callee and c.callee.target not in crate.bodies}
+    by_key, by_name = {}, {}
+    for b in crate.fns():
+        if b.kind == "Closure" or not b.name:
+            continue
+        by_key.setdefault(_mc_key(b), []).append(b)
+        by_name.setdefault(b.name, []).append(b)
+    cache = {}
+    n = 0
+    for k, want in sorted(ref.items()):
+        fk, x = k.rsplit("@", 1)
+        f, name = fk.rsplit("::", 1)
+        if f not in files:
+            continue
+        bs = by_key.get(fk) or by_name.get(name, [])
+        if len(bs) != 1:
+            continue
+        b = bs[0]
+        if b.id not in cache:
+            cache[b.id] = co_exec(crate, b, weighty_only=False)
+        cur = cache[b.id]
+        if x not in cur and not any(_local_call(crate, b, c) and _local_call(crate, b, c)[0] == x for c in b.calls):
+            continue            # the function no longer makes this call itself (moved into a helper / folded away): no obligation
+        n += 1
+        got = cur.get(x, set()) | (must_calls(crate, b, weighty_only=False) or set())
+        for y in want:
+            if y not in names_now or y == name:
+                continue
+            ctx.check(y in got, "lost-companion:%s:%s:%s" % (fkey(b), x, y), "in %s a call of %s is still accompanied by %s on every path" % (short(b.id), x, y),
+                      "%s can now call %s and return normally without calling %s, which accompanied that call on every path in the reviewed tree: the follow-up of a step was dropped or put behind a new condition" % (short(b.id), x, y),
+                      where_of(b))
+    ctx.info("call sites compared with the co-execution table: %d" % n)
